@@ -21,12 +21,17 @@ From Coq Require Export ZArith.
 
 Inductive cont := CNone | CFalse | CTrue.     (* Reply::continues(): None / Some(false) / Some(true) *)
 
+(* A State is `#[derive(Clone)]` in both crates: a clone is a second handle to the SAME channel
+   (the Sender — and in smol the InactiveReceiver — are cloned) with its own copy of `value`.
+   The scenario keeps a vector of handles; handle 0 is State::new(0). *)
 Inductive op :=
-| Set_ (v : N)          (* state.set(v).await                         *)
-| Subscribe             (* subs.push(state.stream())                  *)
+| Set_ (h : nat) (v : N)  (* handles[h].set(v).await                  *)
+| Get (h : nat)         (* handles[h].get()                           *)
+| Subscribe (h : nat)   (* subs.push(handles[h].stream())             *)
 | Poll (s : nat)        (* subs[s].poll_next(cx)                      *)
 | DropSub (s : nat)     (* drop(subs[s])                              *)
-| DropState             (* drop(state)                                *)
+| CloneH (h : nat)      (* handles.push(handles[h].clone())           *)
+| DropH (h : nat)       (* drop(handles[h])                           *)
 | Notify (v : N)        (* once.notify(v)   (consumes the notifier)   *)
 | DropNotifier          (* drop(once)                                 *)
 | PollOnce.             (* once_stream.poll_next(cx)                  *)
@@ -34,7 +39,9 @@ Inductive op :=
 Inductive out :=
 | ODone                 (* operation returned ()                                         *)
 | OSet (g : N)          (* set returned; g = state.get() afterwards                      *)
+| OGet (g : N)          (* get() returned g                                              *)
 | OSub (k : nat)        (* subscribed; k = index of the new subscriber                   *)
+| OHandle (k : nat)     (* cloned; k = index of the new handle                           *)
 | OItem (v : N) (c : cont)   (* Ready(Some(reply)), reply.parameters = Some v, continues = c *)
 | OPending              (* Pending                                                       *)
 | OEnd                  (* Ready(None)                                                   *)
@@ -54,7 +61,8 @@ Record impl := Impl {
   ch_sub : chan -> chan * rx;                    (* State::stream                               *)
   ch_poll : chan -> rx -> chan * rx * out;       (* <Stream as futures::Stream>::poll_next      *)
   ch_droprx : chan -> rx -> chan * out;          (* drop(Stream): ODone/OPanic/OFuel            *)
-  ch_close : chan -> chan;                       (* drop(State)                                 *)
+  ch_clone : chan -> chan;                       (* State::clone (channel part)                 *)
+  ch_droptx : chan -> chan;                      (* drop(State) of one handle                   *)
   on_new : once;                                 (* Once::new                                   *)
   on_notify : once -> N -> once * out;           (* Once::notify: ODone/OPanic                  *)
   on_drop : once -> once;                        (* drop(Once)                                  *)
@@ -71,59 +79,77 @@ Fixpoint upd {A} (l : list A) (i : nat) (x : A) : list A :=
 Section Machine.
 Variable I : impl.
 
-(* value/alive: the harness' Option<State> (alive = Some); subs: Vec<Option<Stream>>;
-   notifier: Option<Once> is Some *)
+(* handles: the harness' Vec<Option<State>> with each live handle's own `value`;
+   subs: Vec<Option<Stream>>; notifier: Option<Once> is Some *)
 Record state := St {
-  value : N; alive : bool; ch : chan I; subs : list (option (rx I));
+  handles : list (option N); ch : chan I; subs : list (option (rx I));
   notifier : bool; onc : once I }.
 
-Definition init : state := St 0%N true (ch_new I) [] true (on_new I).
+Definition init : state := St [Some 0%N] (ch_new I) [] true (on_new I).
 
 Definition step (st : state) (o : op) : state * out :=
   match o with
-  | Set_ v =>
-      if alive st then
+  | Set_ h v =>
+      match nth_error (handles st) h with
+      | Some (Some _) =>
         (* `self.value = value.clone()` comes first in both crates (tokio notified.rs:35,
-           smol notified.rs:52), then the channel send *)
+           smol notified.rs:52), then the channel send; only this handle's copy changes *)
         let '(c', r) := ch_set I (ch st) v in
-        (St v true c' (subs st) (notifier st) (onc st),
+        (St (upd (handles st) h (Some v)) c' (subs st) (notifier st) (onc st),
          match r with ODone => OSet v | r' => r' end)
-      else (st, OGone)
-  | Subscribe =>
-      if alive st then
+      | _ => (st, OGone)
+      end
+  | Get h =>
+      match nth_error (handles st) h with
+      | Some (Some g) => (st, OGet g)
+      | _ => (st, OGone)
+      end
+  | Subscribe h =>
+      match nth_error (handles st) h with
+      | Some (Some _) =>
         let '(c', r) := ch_sub I (ch st) in
-        (St (value st) true c' (subs st ++ [Some r]) (notifier st) (onc st), OSub (length (subs st)))
-      else (st, OGone)
+        (St (handles st) c' (subs st ++ [Some r]) (notifier st) (onc st), OSub (length (subs st)))
+      | _ => (st, OGone)
+      end
   | Poll s =>
       match nth_error (subs st) s with
       | Some (Some r) =>
           let '(c', r', o') := ch_poll I (ch st) r in
-          (St (value st) (alive st) c' (upd (subs st) s (Some r')) (notifier st) (onc st), o')
+          (St (handles st) c' (upd (subs st) s (Some r')) (notifier st) (onc st), o')
       | _ => (st, OGone)
       end
   | DropSub s =>
       match nth_error (subs st) s with
       | Some (Some r) =>
           let '(c', o') := ch_droprx I (ch st) r in
-          (St (value st) (alive st) c' (upd (subs st) s None) (notifier st) (onc st), o')
+          (St (handles st) c' (upd (subs st) s None) (notifier st) (onc st), o')
       | _ => (st, OGone)
       end
-  | DropState =>
-      if alive st then
-        (St (value st) false (ch_close I (ch st)) (subs st) (notifier st) (onc st), ODone)
-      else (st, OGone)
+  | CloneH h =>
+      match nth_error (handles st) h with
+      | Some (Some g) =>
+        (St (handles st ++ [Some g]) (ch_clone I (ch st)) (subs st) (notifier st) (onc st),
+         OHandle (length (handles st)))
+      | _ => (st, OGone)
+      end
+  | DropH h =>
+      match nth_error (handles st) h with
+      | Some (Some _) =>
+        (St (upd (handles st) h None) (ch_droptx I (ch st)) (subs st) (notifier st) (onc st), ODone)
+      | _ => (st, OGone)
+      end
   | Notify v =>
       if notifier st then
         let '(n', o') := on_notify I (onc st) v in
-        (St (value st) (alive st) (ch st) (subs st) false n', o')
+        (St (handles st) (ch st) (subs st) false n', o')
       else (st, OGone)
   | DropNotifier =>
       if notifier st then
-        (St (value st) (alive st) (ch st) (subs st) false (on_drop I (onc st)), ODone)
+        (St (handles st) (ch st) (subs st) false (on_drop I (onc st)), ODone)
       else (st, OGone)
   | PollOnce =>
       let '(n', o') := on_poll I (onc st) in
-      (St (value st) (alive st) (ch st) (subs st) (notifier st) n', o')
+      (St (handles st) (ch st) (subs st) (notifier st) n', o')
   end.
 
 Fixpoint run_from (st : state) (ops : list op) : list out :=
@@ -147,7 +173,7 @@ Definition next (ops : list op) (o : op) : out := snd (step (final ops) o).
 Definition trace (ops : list op) : list (op * out) := combine ops (run ops).
 End Machine.
 
-Arguments St {I}. Arguments value {I}. Arguments alive {I}. Arguments ch {I}. Arguments subs {I}.
+Arguments St {I}. Arguments handles {I}. Arguments ch {I}. Arguments subs {I}.
 Arguments notifier {I}. Arguments onc {I}.
 
 (* ------------------------------------------------------------------------------------------ *)
@@ -156,20 +182,21 @@ Arguments notifier {I}. Arguments onc {I}.
 (* Slot { rem, pos, val } (broadcast.rs Slot); Tail { pos, rx_cnt, closed } + the single slot
    (capacity 1: mask = 0, every index is 0, buffer.len() = 1) *)
 Record tslot := TSlot { sl_pos : Z; sl_rem : nat; sl_val : option N }.
-Record tchan := TChan { tl_pos : Z; tl_rx : nat; tl_closed : bool; tl_slot : tslot }.
+Record tchan := TChan { tl_pos : Z; tl_rx : nat; tl_closed : bool; tl_slot : tslot;
+                        tl_tx : nat (* Shared.num_tx: live Sender handles *) }.
 
 (* Sender::new_with_receiver_count(1, 1) (broadcast.rs:543-575): slot.pos = 0u64.wrapping_sub(1),
    i.e. -1; tail.pos = 0; rx_cnt = 1 *)
-Definition t_fresh : tchan := TChan 0 1 false (TSlot (-1) 0 None).
+Definition t_fresh : tchan := TChan 0 1 false (TSlot (-1) 0 None) 1.
 
 (* Sender::send (broadcast.rs:631-667) *)
 Definition t_send (c : tchan) (v : N) : tchan * bool :=
   if Nat.eqb (tl_rx c) 0 then (c, false)
-  else (TChan (tl_pos c + 1) (tl_rx c) (tl_closed c) (TSlot (tl_pos c) (tl_rx c) (Some v)), true).
+  else (TChan (tl_pos c + 1) (tl_rx c) (tl_closed c) (TSlot (tl_pos c) (tl_rx c) (Some v)) (tl_tx c), true).
 
 (* new_receiver (broadcast.rs:924-942) *)
 Definition t_subscribe (c : tchan) : tchan * Z :=
-  (TChan (tl_pos c) (S (tl_rx c)) (if Nat.eqb (tl_rx c) 0 then false else tl_closed c) (tl_slot c),
+  (TChan (tl_pos c) (S (tl_rx c)) (if Nat.eqb (tl_rx c) 0 then false else tl_closed c) (tl_slot c) (tl_tx c),
    tl_pos c).
 
 (* Drop for RecvGuard (broadcast.rs:1712-1719): `if 1 == rem.fetch_sub(1) { val = None }`.
@@ -178,7 +205,8 @@ Definition t_subscribe (c : tchan) : tchan * Z :=
 Definition t_release (c : tchan) : tchan :=
   let sl := tl_slot c in
   TChan (tl_pos c) (tl_rx c) (tl_closed c)
-        (TSlot (sl_pos sl) (sl_rem sl - 1) (if Nat.eqb (sl_rem sl) 1 then None else sl_val sl)).
+        (TSlot (sl_pos sl) (sl_rem sl - 1) (if Nat.eqb (sl_rem sl) 1 then None else sl_val sl))
+        (tl_tx c).
 
 Inductive rref := ROk (v : option N) | REmpty | RLagged (n : Z) | RClosed.
 
@@ -244,15 +272,22 @@ Fixpoint t_drain (fuel : nat) (c : tchan) (next until : Z) : tchan * out :=
 
 Definition t_droprx (c : tchan) (next : Z) : tchan * out :=
   let rxn := (tl_rx c - 1)%nat in
-  let c1 := TChan (tl_pos c) rxn (if Nat.eqb rxn 0 then true else tl_closed c) (tl_slot c) in
+  let c1 := TChan (tl_pos c) rxn (if Nat.eqb rxn 0 then true else tl_closed c) (tl_slot c) (tl_tx c) in
   t_drain 3 c1 next (tl_pos c).
 
 (* State::new (zlink-tokio notified.rs:27-31): `let (tx, _) = broadcast::channel(1)` — the
    receiver is dropped at once.  Equals `fst (t_droprx t_fresh 0)` (Example in the proofs). *)
-Definition t_new : tchan := TChan 0 0 true (TSlot (-1) 0 None).
+Definition t_new : tchan := TChan 0 0 true (TSlot (-1) 0 None) 1.
 
-(* Sender::drop -> close_channel (broadcast.rs:905-910, 1067-1073); State is never cloned here *)
-Definition t_close (c : tchan) : tchan := TChan (tl_pos c) (tl_rx c) true (tl_slot c).
+(* Sender::clone (broadcast.rs:1058-1065): num_tx += 1 (State::clone, derived, clones `tx`) *)
+Definition t_clone (c : tchan) : tchan :=
+  TChan (tl_pos c) (tl_rx c) (tl_closed c) (tl_slot c) (S (tl_tx c)).
+
+(* Sender::drop (broadcast.rs:1067-1073): `if 1 == num_tx.fetch_sub(1) { close_channel() }`;
+   close_channel (broadcast.rs:905-910) sets tail.closed *)
+Definition t_droptx (c : tchan) : tchan :=
+  TChan (tl_pos c) (tl_rx c) (if Nat.eqb (tl_tx c) 1 then true else tl_closed c) (tl_slot c)
+        (tl_tx c - 1).
 
 (* tokio oneshot (oneshot.rs): value cell, CLOSED/complete by a dropped sender, Receiver.inner *)
 Record tonce := TOnce { to_val : option N; to_txgone : bool; to_done : bool }.
@@ -278,7 +313,8 @@ Definition tokio_impl : impl :=
        t_subscribe                                (* notified.rs:46-48 *)
        (fun c r => t_stream_poll 3 c r)
        t_droprx
-       t_close
+       t_clone
+       t_droptx
        (TOnce None false false) to_notify to_drop to_poll.
 
 (* ------------------------------------------------------------------------------------------ *)
@@ -292,17 +328,18 @@ Definition b_await_active : bool := false.
 (* Inner { queue: VecDeque<(T, usize)>, head_pos, receiver_count, inactive_receiver_count,
    is_closed }; recv_ops (an event_listener::Event) is modelled by an epoch counter: every
    `recv_ops.notify(usize::MAX)` starts a new epoch, a listener remembers the epoch in which it
-   was created and is notified once the epoch has moved on.  sender_count is 1 until the State
-   is dropped (State is never cloned here). *)
+   was created and is notified once the epoch has moved on.  b_tx is sender_count: the live State handles
+   (each holds one Sender and one InactiveReceiver). *)
 Record bchan := BChan {
-  b_queue : list (N * nat); b_head : Z; b_rx : nat; b_inactive : nat; b_closed : bool; b_epoch : nat }.
+  b_queue : list (N * nat); b_head : Z; b_rx : nat; b_inactive : nat; b_closed : bool; b_epoch : nat;
+  b_tx : nat }.
 (* Receiver { pos, listener } *)
 Record brx := BRx { r_pos : Z; r_lst : option nat }.
 
 (* Inner::close (lib.rs `fn close`): no-op when closed, else set and notify everybody *)
 Definition b_close (c : bchan) : bchan :=
   if b_closed c then c
-  else BChan (b_queue c) (b_head c) (b_rx c) (b_inactive c) true (S (b_epoch c)).
+  else BChan (b_queue c) (b_head c) (b_rx c) (b_inactive c) true (S (b_epoch c)) (b_tx c).
 (* Inner::close_channel *)
 Definition b_close_channel (c : bchan) : bchan :=
   if Nat.eqb (b_rx c) 0 && Nat.eqb (b_inactive c) 0 then b_close c else c.
@@ -319,7 +356,7 @@ Definition b_try_broadcast (c : bchan) (v : N) : bchan * tsend :=
     let q := if popped then tl (b_queue c) else b_queue c in
     let some := popped && negb (Nat.eqb (length (b_queue c)) 0) in   (* ret.is_some() *)
     (BChan (q ++ [(v, b_rx c)]) (if some then b_head c + 1 else b_head c)%Z (b_rx c) (b_inactive c)
-           false (S (b_epoch c)), SOk).
+           false (S (b_epoch c)) (b_tx c), SOk).
 
 (* <SendInner as EventListenerFuture>::poll_with_strategy, polled once: Ok -> Ready(Ok);
    Closed -> Ready(Err); Inactive -> Ready(Err) unless await_active; Full / awaited Inactive ->
@@ -335,7 +372,7 @@ Definition b_set (c : bchan) (v : N) : bchan * out :=
 
 (* InactiveReceiver::activate_cloned (zlink-smol notified.rs:63-69) *)
 Definition b_subscribe (c : bchan) : bchan * brx :=
-  (BChan (b_queue c) (b_head c) (S (b_rx c)) (b_inactive c) (b_closed c) (b_epoch c),
+  (BChan (b_queue c) (b_head c) (S (b_rx c)) (b_inactive c) (b_closed c) (b_epoch c) (b_tx c),
    BRx (b_head c + Z.of_nat (length (b_queue c)))%Z None).
 
 Inductive trecv := TOk (v : N) | TEmpty | TClosed | TOverflowed (n : Z) | TPanic.
@@ -351,12 +388,13 @@ Definition b_try_recv_at (c : bchan) (pos : Z) : bchan * Z * trecv :=
         if Nat.eqb w 0 then (c, (pos + 1)%Z, TPanic)
         else if Nat.eqb (w - 1) 0 then
           if Nat.eqb i 0 then
-            (BChan (tl (b_queue c)) (b_head c + 1)%Z (b_rx c) (b_inactive c) (b_closed c) (b_epoch c),
+            (BChan (tl (b_queue c)) (b_head c + 1)%Z (b_rx c) (b_inactive c) (b_closed c) (b_epoch c)
+                   (b_tx c),
              (pos + 1)%Z, TOk elt)
           else (c, (pos + 1)%Z, TPanic)
         else
           (BChan (upd (b_queue c) i (elt, w - 1)) (b_head c) (b_rx c) (b_inactive c) (b_closed c)
-                 (b_epoch c), (pos + 1)%Z, TOk elt)
+                 (b_epoch c) (b_tx c), (pos + 1)%Z, TOk elt)
     | None => (c, pos, if b_closed c then TClosed else TEmpty)
     end.
 
@@ -414,19 +452,27 @@ Fixpoint b_drain (fuel : nat) (c : bchan) (pos : Z) : bchan * out :=
 Definition b_droprx (c : bchan) (r : brx) : bchan * out :=
   let '(c', o) := b_drain 4 c (r_pos r) in
   (b_close_channel (BChan (b_queue c') (b_head c') (b_rx c' - 1) (b_inactive c') (b_closed c')
-                          (b_epoch c')), o).
+                          (b_epoch c') (b_tx c')), o).
 
 (* broadcast(1) gives receiver_count = 1; `rx.deactivate()` adds the inactive receiver and
    drops the active one (drain: Empty; receiver_count = 0; close_channel: inactive = 1, stays
    open) *)
-Definition b_new : bchan := BChan [] 0 0 1 false 0.
+Definition b_new : bchan := BChan [] 0 0 1 false 0 1.
 
-(* drop(State): fields in declaration order — tx (sender_count 1 -> 0: close), then
-   inactive_rx (InactiveReceiver::drop: inactive -= 1; close_channel) *)
+(* State::clone (derived): Sender::clone (sender_count += 1) and InactiveReceiver::clone
+   (inactive_receiver_count += 1) *)
+Definition b_clone (c : bchan) : bchan :=
+  BChan (b_queue c) (b_head c) (b_rx c) (S (b_inactive c)) (b_closed c) (b_epoch c) (S (b_tx c)).
+
+(* drop(State) of one handle: fields in declaration order — tx (Sender::drop: sender_count -= 1,
+   close() when it reaches 0), then inactive_rx (InactiveReceiver::drop: inactive -= 1;
+   close_channel) *)
 Definition b_drop_state (c : bchan) : bchan :=
-  let c1 := b_close c in
+  let c0 := BChan (b_queue c) (b_head c) (b_rx c) (b_inactive c) (b_closed c) (b_epoch c)
+                  (b_tx c - 1) in
+  let c1 := if Nat.eqb (b_tx c0) 0 then b_close c0 else c0 in
   b_close_channel (BChan (b_queue c1) (b_head c1) (b_rx c1) (b_inactive c1 - 1) (b_closed c1)
-                         (b_epoch c1)).
+                         (b_epoch c1) (b_tx c1)).
 
 (* async_channel::bounded(1) as used by Once: the single slot, closed flag, stream_ops epoch,
    the receiver's listener, and the adapter's `terminated` flag *)
@@ -463,6 +509,7 @@ Definition smol_impl : impl :=
        b_new b_set b_subscribe
        (fun c r => b_stream_poll 3 c r)
        b_droprx
+       b_clone
        b_drop_state
        (SOnce None false 0 None false) so_notify so_drop so_poll.
 
@@ -470,19 +517,22 @@ Definition smol_impl : impl :=
 (* (c) the reference: a latest-value cell.  n = number of values published while somebody was  *)
 (*     subscribed, a_last = the latest of them; a subscriber is just the count it has seen.    *)
 
-Record achan := AChan { a_n : Z; a_last : N; a_rx : nat; a_open : bool }.
+(* a_tx = number of live State handles; the cell is open while there is one *)
+Record achan := AChan { a_n : Z; a_last : N; a_rx : nat; a_tx : nat }.
+Definition a_open (c : achan) : bool := negb (Nat.eqb (a_tx c) 0).
 Inductive aonce := AIdle | AArmed (v : N) | ADead | AFinished.
 
 Definition a_set (c : achan) (v : N) : achan * out :=
-  (if Nat.eqb (a_rx c) 0 then c else AChan (a_n c + 1) v (a_rx c) (a_open c), ODone).
+  (if Nat.eqb (a_rx c) 0 then c else AChan (a_n c + 1) v (a_rx c) (a_tx c), ODone).
 Definition a_sub (c : achan) : achan * Z :=
-  (AChan (a_n c) (a_last c) (S (a_rx c)) (a_open c), a_n c).
+  (AChan (a_n c) (a_last c) (S (a_rx c)) (a_tx c), a_n c).
 Definition a_poll (c : achan) (k : Z) : achan * Z * out :=
   if (k <? a_n c)%Z then (c, a_n c, OItem (a_last c) CTrue)
   else (c, k, if a_open c then OPending else OEnd).
 Definition a_droprx (c : achan) (k : Z) : achan * out :=
-  (AChan (a_n c) (a_last c) (a_rx c - 1) (a_open c), ODone).
-Definition a_close (c : achan) : achan := AChan (a_n c) (a_last c) (a_rx c) false.
+  (AChan (a_n c) (a_last c) (a_rx c - 1) (a_tx c), ODone).
+Definition a_clone (c : achan) : achan := AChan (a_n c) (a_last c) (a_rx c) (S (a_tx c)).
+Definition a_droptx (c : achan) : achan := AChan (a_n c) (a_last c) (a_rx c) (a_tx c - 1).
 
 Definition ao_notify (o : aonce) (v : N) : aonce * out :=
   match o with AIdle => (AArmed v, ODone) | _ => (o, OPanic) end.
@@ -496,7 +546,7 @@ Definition ao_poll (o : aonce) : aonce * out :=
   end.
 
 Definition abs_impl : impl :=
-  Impl achan Z aonce (AChan 0 0 0 true) a_set a_sub a_poll a_droprx a_close
+  Impl achan Z aonce (AChan 0 0 0 1) a_set a_sub a_poll a_droprx a_clone a_droptx
        AIdle ao_notify ao_drop ao_poll.
 
 (* ------------------------------------------------------------------------------------------ *)
@@ -512,11 +562,11 @@ Fixpoint received (s : nat) (tr : list ev) : list N :=
   | _ :: tr' => received s tr'
   end.
 
-(* the values set (by a set that went through) *)
+(* the values set (by a set that went through), through whichever handle *)
 Fixpoint sets (tr : list ev) : list N :=
   match tr with
   | [] => []
-  | (Set_ _, OSet v) :: tr' => v :: sets tr'
+  | (Set_ _ _, OSet v) :: tr' => v :: sets tr'
   | _ :: tr' => sets tr'
   end.
 
@@ -524,9 +574,42 @@ Fixpoint sets (tr : list ev) : list N :=
 Fixpoint sets_after (s : nat) (tr : list ev) : list N :=
   match tr with
   | [] => []
-  | (Subscribe, OSub k) :: tr' => if Nat.eqb k s then sets tr' else sets_after s tr'
+  | (Subscribe _, OSub k) :: tr' => if Nat.eqb k s then sets tr' else sets_after s tr'
   | _ :: tr' => sets_after s tr'
   end.
+
+(* handle h exists at the end of the history: it is handle 0 or was created by a clone, and it
+   has not been dropped *)
+Definition is_clone (h : nat) (e : ev) : bool :=
+  match e with (CloneH _, OHandle k) => Nat.eqb k h | _ => false end.
+Definition is_droph (h : nat) (e : ev) : bool :=
+  match e with (DropH k, ODone) => Nat.eqb k h | _ => false end.
+Definition handle_live (h : nat) (tr : list ev) : bool :=
+  (Nat.eqb h 0 || existsb (is_clone h) tr) && negb (existsb (is_droph h) tr).
+
+(* the handle an operation goes through *)
+Definition handle_of (o : op) : option nat :=
+  match o with
+  | Set_ h _ | Get h | Subscribe h | CloneH h | DropH h => Some h
+  | _ => None
+  end.
+
+Definition is_get (o : op) : bool := match o with Get _ => true | _ => false end.
+(* everything observable in a history except what get() returned *)
+Definition view (tr : list ev) : list out :=
+  map snd (filter (fun e => negb (is_get (fst e))) tr).
+(* an operation that neither goes through handle h nor drops a handle *)
+Definition spares (h : nat) (o : op) : Prop :=
+  handle_of o <> Some h /\ match o with DropH _ => False | _ => True end.
+
+(* each handle's own copy of the value: what get() through it must return *)
+Definition hstep (vals : list N) (e : ev) : list N :=
+  match e with
+  | (Set_ h _, OSet v) => upd vals h v
+  | (CloneH p, OHandle _) => vals ++ [nth p vals 0%N]
+  | _ => vals
+  end.
+Definition hvals (tr : list ev) : list N := fold_left hstep tr [0%N].
 
 Inductive sublist {A} : list A -> list A -> Prop :=
 | sub_nil : sublist [] []
